@@ -103,7 +103,7 @@ class BufferedReader(io.RawIOBase):
         while todo:
             self.cache(bucket)
             sz = min(todo, self.buffersize - offset)
-            buf.write(self.buffers[bucket].data[offset:].tobytes())
+            buf.write(self.buffers[bucket].data[offset:offset + sz].tobytes())
             bucket += self.buffersize
             offset = 0
             todo -= sz
@@ -147,7 +147,9 @@ class BufferedReader(io.RawIOBase):
         return b[:n]
 
     def readall(self):
-        self.reader.seek(self.pos)
+        if self.size is not None:
+            return self.read(self.size - self.pos)
+        self.reader.seek(self.pos + self.offset)
         rv = self.reader.read()
         self.pos += len(rv)
         return rv
